@@ -406,4 +406,12 @@ empty @is_you(int k, int d) {
   write('b');
 }'''
     add('nonlocal_preempt_stop', np2, [[0, 0], [0, 1], [1, 0], [1, 1]])
+    # every syntactic home of a preempt block makes the function preemptive (README: "anywhere in it, even if unreachable")
+    homes = {'for': 'for (int i = 0; i < k; i += 1) { preempt { write(\'p\'); } }', 'while': 'int i = 0; while (i < k) { i += 1; preempt { write(\'p\'); } }',
+             'else': 'if (k > 5) { write(\'t\'); } else { preempt { write(\'p\'); } }', 'block': '{ { preempt { write(\'p\'); } } }',
+             'dead': 'if (false) { preempt { write(\'p\'); } }', 'after_return': 'if (k >= 0) { write(\'q\'); return; } preempt { write(\'p\'); }',
+             'forstep': 'for (int i = 0; i < k; i += 1) { if (i > 5) { preempt { } } }', 'nested_if_for': 'if (k < 3) { for (;;) { preempt { break; } break; } }'}
+    for nm, body in homes.items():
+        add('preempt_home_' + nm, 'empty !pre(int k) { %s write(\'q\'); }\nempty @is_you(int k, int d) { write(\'a\'); try { !pre(k); write(\'r\'); !truth_is_defeat(d == 1); write(\'n\'); } undo { write(\'u\'); } write(\'b\'); }' % body,
+            [[0, 0], [0, 1], [1, 1], [9, 1]])
     return items
